@@ -1,7 +1,7 @@
 \* thorough emission: every edge two edits deep on the block with a negative-area gap
 CONSTANTS NLeaf = 4  NBlk = 1  NAsm = 1  MaxLevel = 3  LSrc = 600  LMax = 20000  VMax = 100
 CONSTANTS Parent <- TGapParent  Area <- TGapArea  Height <- TGapHeight  Sym <- TGapSym  W <- Wt  N0 <- TGapN0  H0 <- TGapH0
-CONSTANTS Targets <- TGapTargetsAll  Vals <- ValsQ  Facs <- FacsQ  Masses <- MassesQ  Maps <- MapsQ  FracMaps <- FracMapsQ  AddMaps <- AddMapsQ  SetMaps <- SetMapsQ
+CONSTANTS Targets <- TGapTargets  Vals <- ValsQ  Facs <- FacsQ  Masses <- MassesQ  Maps <- MapsQ  FracMaps <- FracMapsQ  AddMaps <- AddMapsQ  SetMaps <- SetMapsQ
 CONSTANTS AdjSets <- AdjSetsQ  EnrFracs <- EnrFracsQ  AdjMFs <- AdjMFsQ
 CONSTANTS HDom <- HDom123  HTargets <- TGapHAll  HVals <- HVals2
 CONSTANTS LeafVolCut <- LeafVolCutEnv  ScaleRaises <- ScaleRaisesEnv
